@@ -16,7 +16,7 @@ import (
 func init() { Registry["C13"] = checkC13 }
 
 func checkC13(p *core.Prog, r *core.Report) {
-	r.Explanation = "Decides a stated domain of crash sites reachable from client input (connection goroutines have no recover(), checked as a fact): (R1) in every function of server/ and protocol/ that receives a text command's argument list ([]string parameter), every index args[c], args[v+c] and re-slice args[c:] is covered on its path by a length test of that list (len(args) lower bound from ==, <, <=, != tests in either polarity; v+c forms by a test of the same v against len(args)); a guard on a different expression of v does not count; (R2) every result code has an ERROR_MSG entry; (R3) the optional pointers LockCommand.Data, LockResultCommand.Data, LockManager.currentData and Lock.data are dereferenced (field access or method call) only on paths that tested them non-nil; (R4) constant indexes into client value frames (LockCommandData.Data, origin byte frames) are covered by a length test or by the frame reader's minimum length. Sites outside the domain (indices through struct fields, data-dependent offsets, loops with stride arithmetic) are counted as outside_domain and not claimed. (R5) in the text parser and stream readers an index of the form v-c (c>0) is covered by a test v >= c on its path. (R6) in the text parser every rbuf[e] has e < bufLen and every rbuf[a:b] has b <= bufLen on its path (linear entailment over the symbolic cursor and length; loop-carried locals are outside the domain); (R7) the per-connection reply buffer: every advance of the write index provably fits and the invariant index+64 <= len(buf) is re-established at every exit (inductive, assuming it at entry). NOT decided: integer overflow, huge allocations, channel/close misuse, type assertions, deadlock, stack exhaustion."
+	r.Explanation = "Decides a stated domain of crash sites reachable from client input (connection goroutines have no recover(), checked as a fact): (R1) in every function of server/ and protocol/ that receives a text command's argument list ([]string parameter), every index args[c], args[v+c] and re-slice args[c:] is covered on its path by a length test of that list (len(args) lower bound from ==, <, <=, != tests in either polarity; v+c forms by a test of the same v against len(args)); a guard on a different expression of v does not count; (R2) every result code has an ERROR_MSG entry; (R3) the optional pointers LockCommand.Data, LockResultCommand.Data, LockManager.currentData and Lock.data are dereferenced (field access or method call) only on paths that tested them non-nil; (R4) constant indexes into client value frames (LockCommandData.Data, origin byte frames) are covered by a length test or by the frame reader's minimum length. Sites outside the domain (indices through struct fields, data-dependent offsets, loops with stride arithmetic) are counted as outside_domain and not claimed. (R5) in the text parser and stream readers an index of the form v-c (c>0) is covered by a test v >= c on its path. (R6) in the text parser every rbuf[e] has e < bufLen and every rbuf[a:b] has b <= bufLen on its path (linear entailment over the symbolic cursor and length; loop-carried locals are outside the domain); (R7) the per-connection reply buffer: every advance of the write index provably fits and the invariant index+64 <= len(buf) is re-established at every exit (inductive, assuming it at entry); (R8) the text protocol's recycled reply object has every argument-dependent field reassigned on every path before hand-over; (R9) constant and constant-bounded loop indexes into fixed-capacity tables (slices only ever made with a constant length) stay below the capacity (field cursors: only where a path fact bounds the cursor, and not in functions whose exploration exceeds the step budget). NOT decided: integer overflow, huge allocations, channel/close misuse, type assertions, deadlock, stack exhaustion."
 	r.Assumptions = []string{"Go type checker and go/ssa are correct for /repo", "a handler dispatched through a command registry receives the parsed command with its name at args[0] (len(args) >= 1)", "a panic in any goroutine started for a connection kills the process (no recover in Server.handle: asserted)"}
 	c13NoRecover(p, r)
 	c13R1(p, r)
@@ -26,6 +26,8 @@ func checkC13(p *core.Prog, r *core.Report) {
 	c13R5(p, r)
 	c13R6(p, r)
 	c13R7(p, r)
+	c13R8(p, r)
+	c13R9(p, r)
 }
 
 // c13NoRecover asserts the premise that makes every panic fatal.
@@ -1012,6 +1014,313 @@ func c13R7(p *core.Prog, r *core.Report) {
 		}
 		if advanced == 0 {
 			r.Fail("C13/R7 %s: no advance of the write index explored", name)
+		}
+	}
+}
+
+// c13R8: the text protocol keeps one LockResultCommand per connection and
+// reuses it for the next reply. Everything a reply says that can differ from
+// the previous reply has to be written again before the object is handed to
+// the reader: the fields the constructor NewLockResultCommand derives from its
+// arguments. A field left from the previous reply is not just wrong data: a
+// stale CONTAINS_DATA flag with Data reset to nil makes the reply writer
+// dereference nil and the connection goroutine panic.
+func c13R8(p *core.Prog, r *core.Report) {
+	const rule = "C13/R8"
+	r.Rule(rule, "the recycled text reply object has every argument-dependent field reassigned (not from its own old value) on every path before it is handed to the reader", 1)
+	fn := mustFunc(p, r, "server.(*TextServerProtocol).ProcessLockResultCommand")
+	ctor := mustFunc(p, r, "protocol.NewLockResultCommand")
+	if fn == nil || ctor == nil {
+		return
+	}
+	// fields the constructor fills from its arguments
+	required := map[string]bool{}
+	for _, b := range ctor.Blocks {
+		for _, ins := range b.Instrs {
+			st, ok := ins.(*ssa.Store)
+			if !ok {
+				continue
+			}
+			fa, ok := st.Addr.(*ssa.FieldAddr)
+			if !ok {
+				continue
+			}
+			k := core.FieldKeyOf(fa.X.Type(), fa.Field)
+			if k.Type != "protocol.LockResultCommand" && k.Type != "protocol.ResultCommand" {
+				continue
+			}
+			if _, isConst := st.Val.(*ssa.Const); isConst {
+				continue
+			}
+			if u, ok := st.Val.(*ssa.UnOp); ok {
+				if _, isGlobal := u.X.(*ssa.Global); isGlobal {
+					continue
+				}
+			}
+			if k.Field == "ResultCommand" {
+				continue
+			}
+			required[k.Field] = true
+		}
+	}
+	// the embedded ResultCommand literal is built separately: its argument-dependent fields
+	for _, f := range []string{"CommandType", "RequestId", "Result"} {
+		required[f] = true
+	}
+	delete(required, "Magic")
+	delete(required, "Version")
+	if len(required) < 8 {
+		r.Fail("C13/R8: constructor fields not recognised (%d)", len(required))
+		return
+	}
+	self := fn.Params[0].Name()
+	obj := self + ".freeCommandResult"
+	n := 0
+	ex := core.NewExplorer(p, core.Hooks{
+		Instr: func(x *core.X) {
+			if !x.Top() {
+				return
+			}
+			switch t := x.Ins.(type) {
+			case *ssa.Store:
+				fa, ok := t.Addr.(*ssa.FieldAddr)
+				if !ok {
+					return
+				}
+				k := core.FieldKeyOf(fa.X.Type(), fa.Field)
+				if k.Type != "protocol.LockResultCommand" && k.Type != "protocol.ResultCommand" {
+					return
+				}
+				base := core.Plain(x.Canon(fa.X).S)
+				if !strings.HasPrefix(base, obj) && !strings.HasPrefix(strings.TrimPrefix(base, "&"), obj) {
+					return
+				}
+				v := core.Plain(x.Canon(t.Val).S)
+				if strings.Contains(v, obj+"."+k.Field) || strings.Contains(v, obj+".ResultCommand."+k.Field) {
+					x.Set("as:"+k.Field, "") // read-modify-write of the stale value
+					return
+				}
+				x.Set("as:"+k.Field, "1")
+			case *ssa.Send:
+				if !strings.HasPrefix(core.Plain(x.Canon(t.X).S), obj) {
+					return
+				}
+				n++
+				var missing []string
+				for f := range required {
+					if x.Get("as:"+f) != "1" {
+						missing = append(missing, f)
+					}
+				}
+				sort.Strings(missing)
+				key := "server.(*TextServerProtocol).ProcessLockResultCommand: recycled reply"
+				if len(missing) == 0 {
+					r.Hold(rule, key, x.Pos(), "all argument-dependent fields reassigned")
+				} else {
+					r.Violate(rule, key, x.Pos(), "the recycled reply object is handed to the reader with "+strings.Join(missing, ", ")+" left from the previous reply on this path (e.g. a stale CONTAINS_DATA flag with Data reset to nil makes the reply writer dereference nil: the connection goroutine panics)", x.St.Trace)
+				}
+			}
+		},
+	})
+	ex.NoHist = true
+	ex.Run(fn, nil)
+	if ex.Imprecise != "" {
+		r.Fail("C13/R8: %s", ex.Imprecise)
+	}
+	if n == 0 {
+		r.Fail("C13/R8: no hand-over of the recycled reply found")
+	}
+}
+
+// c13R9: fixed-capacity tables. Several per-connection caches are slices that
+// are only ever created as make([]T, K) with a constant K (the free-command
+// caches, the wheel slot arrays). A loop with constant bounds that indexes
+// such a table, or a constant index, must stay below K - the classic
+// "i <= SIZE" walks one past the table and panics in the connection goroutine.
+func c13R9(p *core.Prog, r *core.Report) {
+	const rule = "C13/R9"
+	r.Rule(rule, "indexes into slices that are only ever made with a constant length stay below that length: constant indexes, constant-bounded loop indexes, and field cursors whose path bounds them", 4)
+	type info struct {
+		k     int64
+		mixed bool
+	}
+	fixed := map[core.FieldKey]*info{}
+	note := func(k core.FieldKey, n int64, ok bool) {
+		in := fixed[k]
+		if in == nil {
+			in = &info{k: -1}
+			fixed[k] = in
+		}
+		if !ok {
+			in.mixed = true
+			return
+		}
+		if in.k >= 0 && in.k != n {
+			in.mixed = true
+		}
+		in.k = n
+	}
+	for _, pkg := range []string{"server", "client"} {
+		for _, fn := range p.FuncsIn(pkg) {
+			for _, b := range fn.Blocks {
+				for _, ins := range b.Instrs {
+					st, ok := ins.(*ssa.Store)
+					if !ok {
+						continue
+					}
+					fa, ok := st.Addr.(*ssa.FieldAddr)
+					if !ok {
+						continue
+					}
+					if _, isSlice := st.Val.Type().Underlying().(*types.Slice); !isSlice {
+						continue
+					}
+					k := core.FieldKeyOf(fa.X.Type(), fa.Field)
+					switch v := st.Val.(type) {
+					case *ssa.MakeSlice:
+						if c, ok := v.Len.(*ssa.Const); ok && c.Value != nil {
+							note(k, c.Int64(), true)
+						} else {
+							note(k, 0, false)
+						}
+					case *ssa.Slice:
+						al, ok := v.X.(*ssa.Alloc)
+						if ok && v.Low == nil {
+							if pt, ok := al.Type().Underlying().(*types.Pointer); ok {
+								if at, ok := pt.Elem().Underlying().(*types.Array); ok {
+									if v.High == nil {
+										note(k, at.Len(), true)
+										continue
+									}
+									if c, ok := v.High.(*ssa.Const); ok && c.Value != nil {
+										note(k, c.Int64(), true)
+										continue
+									}
+								}
+							}
+						}
+						note(k, 0, false)
+					case *ssa.Const:
+						// nil: releasing the table
+					default:
+						note(k, 0, false)
+					}
+				}
+			}
+		}
+	}
+	pathIdx := map[*ssa.Function]bool{}
+	defer func() {
+		// cursors: a path fact that bounds the cursor must bound it below the capacity
+		var fns []*ssa.Function
+		for fn := range pathIdx {
+			fns = append(fns, fn)
+		}
+		sort.Slice(fns, func(i, j int) bool { return core.FuncName(fns[i]) < core.FuncName(fns[j]) })
+		for _, fn := range fns {
+			name := core.FuncName(fn)
+			ex := core.NewExplorer(p, core.Hooks{
+				Track: func(x *core.X, a core.Atom) bool { return true },
+				Instr: func(x *core.X) {
+					if !x.Top() {
+						return
+					}
+					ia, ok := x.Ins.(*ssa.IndexAddr)
+					if !ok {
+						return
+					}
+					ld, ok := ia.X.(*ssa.UnOp)
+					if !ok {
+						return
+					}
+					fa, ok := ld.X.(*ssa.FieldAddr)
+					if !ok {
+						return
+					}
+					k := core.FieldKeyOf(fa.X.Type(), fa.Field)
+					in := fixed[k]
+					if in == nil || in.mixed || in.k < 0 {
+						return
+					}
+					if _, isC := ia.Index.(*ssa.Const); isC {
+						return
+					}
+					e := core.Plain(x.Canon(ia.Index).S)
+					ub := x.St.Facts.UpperBound(e)
+					if ub > 1<<40 {
+						r.Stats["R9_unbounded_cursors"]++
+						return
+					}
+					key := name + ": " + k.Field + "[" + stable(e) + "]"
+					if ub < in.k {
+						r.Hold(rule, key, x.Pos(), fmt.Sprintf("cursor bounded by %d on this path, table has %d entries", ub, in.k))
+					} else {
+						r.Violate(rule, key, x.Pos(), fmt.Sprintf("the path bounds the cursor only by %d, but %s is always made with %d entries: the guard admits an index one past the table (index out of range)", ub, k.String(), in.k), x.St.Trace)
+					}
+				},
+			})
+			ex.NoHist = true
+			ex.MaxSteps = 150000
+			ex.Run(fn, nil)
+			if ex.Imprecise != "" {
+				// cursor bounds in very large functions are outside the decided domain
+				// (constant and loop indexes of the same function are still decided above)
+				r.Stats["R9_functions_outside_domain"]++
+			}
+		}
+	}()
+	for _, pkg := range []string{"server", "client"} {
+		for _, fn := range p.FuncsIn(pkg) {
+			if fn.Blocks == nil {
+				continue
+			}
+			n := 0
+			for _, b := range fn.Blocks {
+				for _, ins := range b.Instrs {
+					ia, ok := ins.(*ssa.IndexAddr)
+					if !ok {
+						continue
+					}
+					ld, ok := ia.X.(*ssa.UnOp)
+					if !ok {
+						continue
+					}
+					fa, ok := ld.X.(*ssa.FieldAddr)
+					if !ok {
+						continue
+					}
+					k := core.FieldKeyOf(fa.X.Type(), fa.Field)
+					in := fixed[k]
+					if in == nil || in.mixed || in.k < 0 {
+						continue
+					}
+					hi := int64(-1)
+					what := ""
+					switch t := ia.Index.(type) {
+					case *ssa.Const:
+						if t.Value != nil {
+							hi = t.Int64() + 1
+							what = fmt.Sprintf("constant index %d", t.Int64())
+						}
+					case *ssa.Phi:
+						if rg, ok := inductionRange(t); ok {
+							hi = int64(rg.hi)
+							what = fmt.Sprintf("loop index in [%d,%d)", rg.lo, rg.hi)
+						}
+					}
+					if hi < 0 {
+						pathIdx[fn] = true
+						continue
+					}
+					n++
+					key := fmt.Sprintf("%s: %s index#%d", core.FuncName(fn), k.Field, n)
+					if hi <= in.k {
+						r.Hold(rule, key, p.InstrPos(ins), fmt.Sprintf("%s within the table's %d entries", what, in.k))
+					} else {
+						r.Violate(rule, key, p.InstrPos(ins), fmt.Sprintf("%s reaches past %s, which is always made with %d entries: index out of range in the connection's goroutine", what, k.String(), in.k), nil)
+					}
+				}
+			}
 		}
 	}
 }
